@@ -46,6 +46,8 @@ type step struct {
 	PbErr    string     `json:"header_error,omitempty"`
 	Panic    string     `json:"panic,omitempty"`
 
+	Race *raceInfo `json:"race,omitempty"`
+
 	pdRegionCount map[uint64]int
 }
 
